@@ -451,6 +451,9 @@ def run(facts, rep, tier):
              "(links included) contributes its payload's text.")
     from . import plaintext
     plaintext.rule_plain_text(facts, rep, "C06-R3c")
+    rep.rule("C06-R8", "= C01-R15: no link changes its destination in a table cell (dest_url <- url, title <- title, position by position).")
+    from . import writer_payload
+    writer_payload.rule_writer_payload(facts, rep, "C06-R8")
 
 
 class _MultiOnly:
